@@ -7,6 +7,8 @@ mod ksim;
 mod lsim;
 mod ovr;
 mod pinfo;
+mod ptot;
+mod sx;
 mod swev;
 
 fn main() {
@@ -22,6 +24,8 @@ fn main() {
         "pinfo" => pinfo::run(&args[2..]),
         "swev" => swev::run(&args[2..]),
         "ovr" => ovr::run(&args[2..]),
+        "ptot" => ptot::run(&args[2..]),
+        "sx" => sx::run(&args[2..]),
         other => {
             eprintln!("unknown subcommand {other}");
             std::process::exit(2);
